@@ -26,7 +26,7 @@ ANCHORS = [("leuvenmapmatching/matcher/base.py", "BaseMatcher._match_states"),
            ("leuvenmapmatching/map/sqlite.py", "SqliteMap.nodes_nbrto"),
            ("leuvenmapmatching/map/sqlite.py", "SqliteMap.edges_nbrto")]
 FLOORS = {"consecutive_pairs": 6000, "pairs_inside_nonemitting_runs": 700, "paths_judged": 4000, "nodes_only_views": 3000, "linked_edge_maps": 200,
-          "sqlite_maps": 200, "oneway_maps": 800, "selfloop_maps": 300, "uturn_moves": 100, "linked_moves": 5, "lattice_links_scanned": 100000, "shared_end_linked_cases": 300, "shared_end_cases_using_the_linked_move": 50}
+          "sqlite_maps": 200, "oneway_maps": 800, "selfloop_maps": 300, "uturn_moves": 100, "linked_moves": 5, "lattice_links_scanned": 100000, "shared_end_linked_cases": 300, "shared_end_cases_using_the_linked_move": 50, "rebuilt_sqlite_maps_with_stale_links": 100}
 ASSUMPTIONS = ["after continue_with_distance (a jump operation) only the existence of the states is judged, as the property states"]
 
 
@@ -64,6 +64,11 @@ def gen_shared_end_case(rng):
     o0 = [s0[0] + t0 * (tgt[0] - s0[0]), s0[1] + t0 * (tgt[1] - s0[1])]
     pq = [(c[lab["P"]][0] + c[lab["Q"]][0]) / 2 + rng.uniform(-0.2, 0.2), (c[lab["P"]][1] + c[lab["Q"]][1]) / 2 + rng.uniform(-0.1, 0.1)]
     tr = [o0, pq]
+    if rng.random() < 0.5:
+        # dense variant: an observation ON the linked edge itself, so that the linked move is a direct emitting transition
+        fa, fb = c[lab[first]], c[lab["B"]]
+        tt = rng.choice([0.3, 0.5, 0.7])
+        tr = [o0, [fa[0] + tt * (fb[0] - fa[0]), fa[1] + tt * (fb[1] - fa[1])], pq]
     if rng.random() < 0.6:
         qr = [(c[lab["Q"]][0] + c[lab["R"]][0]) / 2, (c[lab["Q"]][1] + c[lab["R"]][1]) / 2]
         tr.append(qr)
@@ -78,6 +83,12 @@ def gen_shared_end_case(rng):
 
 
 def gen_case(rng, i, tier):
+    if i % 12 == 9:
+        case = gen.gen_carriageway_case(rng)
+        case["backend"] = "inmem"
+        case["shared_end"] = True
+        case["ops"] = gen.gen_history(rng, len(case["trace"]), case["cfg"]["width"], allow_cwd=False, max_ops=2)
+        return case
     if i % 12 == 5:
         case = gen_shared_end_case(rng)
         case["ops"] = gen.gen_history(rng, len(case["trace"]), case["cfg"]["width"], allow_cwd=False, max_ops=2)
@@ -88,7 +99,7 @@ def gen_case(rng, i, tier):
         case["ops"] = gen.gen_history(rng, len(case["trace"]), case["cfg"]["width"], allow_cwd=False, max_ops=2)
         return case
     sq = rng.random() < 0.15
-    case = mcase.gen_mcase(rng, ne=(rng.random() < 0.6), width="maybe", tighten_p=0.15, sparse_p=0.3, max_obs=9,
+    case = mcase.gen_mcase(rng, families=gen.FAMILIES_ALL, ne=(rng.random() < 0.6), width="maybe", tighten_p=0.15, sparse_p=0.3, max_obs=9,
                            labels=("int",) if sq else ("int", "int", "str", "gap"))
     m = case["map"]
     es = gen.real_edges(m)
@@ -103,6 +114,9 @@ def gen_case(rng, i, tier):
     case["backend"] = "sqlite" if sq else "inmem"
     if sq:
         m["edges"] = [e for e in m["edges"] if e[0] != e[1]]  # SqliteMap has no self-listed neighbours idiom
+        if rng.random() < 0.5:
+            case["rebuilt"] = rng.choice([0.5, 1.0, 2.0, 5.0])
+            case["cfg"]["non_emitting"] = rng.random() < 0.7
     case["ops"] = gen.gen_history(rng, len(case["trace"]), case["cfg"]["width"], allow_cwd=(rng.random() < 0.1 and not sq), max_ops=3)
     if not case.get("large") and not case["map"].get("latlon"):
         gen.add_pre_trace(rng, case)
@@ -118,7 +132,22 @@ def check_case(ctx, case):
     model = MapModel(m)
     sm = None
     if case["backend"] == "sqlite":
-        mp = sm = build.make_sqlite(m, ctx.scratch)
+        name = None
+        if case.get("rebuilt"):
+            # the database file is REBUILT: an earlier map with the same name and directory held the same roads WITH parallel
+            # roads linked (connect_parallelroads); the new map is loaded without links, and the model has none
+            import os
+            name = f"rebuilt{os.getpid()}_{ctx.cases}"
+            old = build.make_sqlite(m, ctx.scratch, name=name)
+            try:
+                old.connect_parallelroads(dist=case["rebuilt"])
+                n_links = old.db.execute("SELECT count(*) FROM close_edges").fetchone()[0]
+                ctx.count("rebuilt_sqlite_maps")
+                if n_links:
+                    ctx.count("rebuilt_sqlite_maps_with_stale_links")
+            finally:
+                old.db.close()
+        mp = sm = build.make_sqlite(m, ctx.scratch, name=name)
         ctx.count("sqlite_maps")
     else:
         mp = build.make_inmem(m)
